@@ -1605,7 +1605,7 @@ func c06Setup(t *testing.T, cfg c06Config, mat *c06Material, fakes *c06Fakes) *v
 
 func TestVerif_C06(t *testing.T) {
 	verifWriteConsts(t)
-	res := newVerifResult("every route of the regenerated service mux x ~60 credential shapes (none, basic good/bad, session of every level, expired / not yet valid / foreign key / other kind / wrong issuer / audience / tampered / alg none, keymaster certificates with 2-element, 1-element, multi-path, foreign-CA chains, deny-listed key, empty CN, IP-restricted certificates inside / outside / with client-supplied address headers / non-automation / corrupted extension, certificate + session) x {GET, POST, PUT} x 16 Origin/Referer shapes x target users, through the production mux; direct calls of checkAuth over shapes x ~20 masks; observables: user in the access log, signed material verifying under the keymaster keys, profile canaries, digest of both tables, challenge/push maps, fake push services; non-trivial = admitted or effect observed; distinct by (route, shape, method, origin, target, observation)")
+	res := newVerifResult("every route of the regenerated service mux x ~60 credential shapes (none, basic good/bad, session of every level, expired / not yet valid / foreign key / other kind / wrong issuer / audience / tampered / alg none, keymaster certificates with 2-element, 1-element, multi-path, foreign-CA chains, deny-listed key, empty CN, IP-restricted certificates inside / outside / with client-supplied address headers / non-automation / corrupted extension, certificate + session) x {GET, POST, PUT} x 16 Origin/Referer shapes x target users, through the production mux; direct calls of checkAuth over shapes x ~20 masks; the login route as issuer of sessions: login credential (form / Authorization header / both, right and wrong password) x attached auth_cookie state of the login user and of another user (every level, valid / expired / foreign / junk) x client certificate x method x Accept, the Set-Cookie decoded under the server's public key; observables: user in the access log, signed material verifying under the keymaster keys, profile canaries, digest of both tables, challenge/push maps, fake push services; non-trivial = admitted or effect observed; distinct by (route, shape, method, origin, target, observation)")
 	now := time.Now().Unix()
 	fk, _ := ecdsa.GenerateKey(elliptic.P256(), rand.Reader)
 	ftmpl := x509.Certificate{SerialNumber: big.NewInt(99), Subject: pkix.Name{CommonName: "foreign CA"}, NotBefore: time.Now().Add(-time.Hour), NotAfter: time.Now().Add(48 * time.Hour),
